@@ -83,7 +83,7 @@ Fixpoint LI (t : list str) (v : pv) {struct v} : Prop :=
   | PComp inner => LI t inner
   | PPlurals fs o => LIs t fs /\ LI t o
   | PBloc vs => LIs t vs
-  | PDefault | PForeign | PVar | PSubV | PLitOther => True
+  | PDefault | PForeign | PVar | PSubV | PLitOther _ => True
   end
 with LIs (t : list str) (vs : pvs) {struct vs} : Prop :=
   match vs with
@@ -122,7 +122,7 @@ Proof.
   - intros ix v' ix' Hwf H. cbn [index_pv] in H. inversion H; subst. split; [exact Hwf | split; [apply ext_refl | exact I]].
   - intros ix v' ix' Hwf H. cbn [index_pv] in H. inversion H; subst. split; [exact Hwf | split; [apply ext_refl | exact I]].
   - intros ix v' ix' Hwf H. cbn [index_pv] in H. inversion H; subst. split; [exact Hwf | split; [apply ext_refl | exact I]].
-  - intros ix v' ix' Hwf H. cbn [index_pv] in H. inversion H; subst. split; [exact Hwf | split; [apply ext_refl | exact I]].
+  - intros t ix v' ix' Hwf H. cbn [index_pv] in H. inversion H; subst. split; [exact Hwf | split; [apply ext_refl | exact I]].
   - intros s idx ix v' ix' Hwf H. cbn [index_pv] in H.
     destruct (push_str ix s) as [i ix1] eqn:E. inversion H; subst.
     destruct (push_str_spec _ _ _ _ Hwf E) as (W & X & L). split; [exact W | split; [exact X | exact L]].
@@ -283,7 +283,7 @@ Proof.
   - intros ix. reflexivity.
   - intros ix. reflexivity.
   - intros ix. reflexivity.
-  - intros ix. reflexivity.
+  - intros t ix. reflexivity.
   - intros s idx ix. cbn [index_pv]. destruct (push_str ix s). reflexivity.
   - intros vs IH ix. cbn [index_pv]. specialize (IH ix). destruct (index_pvs vs ix).
     cbn [fst erase_pv] in *. rewrite IH. reflexivity.
@@ -464,4 +464,127 @@ Example ex_tree_ok :
   o_strings (index_locale ex_tree) = [[72; 105]; [160]; [49]]
   /\ spec_C11 [([[97]], [72; 105]); ([[98]; [99]], [72; 105])] 2 (index_locale ex_tree) = false
   /\ spec_C11 [([[97]], [72; 105])] 2 (index_locale ex_tree) = true.
+Proof. vm_compute. repeat split. Qed.
+
+(** * Literal kinds: what `merge` does to the per-key state never changes what is indexed *)
+Lemma index_pv_other : forall t ix, index_pv (PLitOther t) ix = (PLitOther t, ix).
+Proof. reflexivity. Qed.
+
+Lemma merge_value_index : forall v iv ix,
+  (fst (fst (merge_value v iv ix)), snd (merge_value v iv ix)) = index_pv v ix.
+Proof.
+  intros v iv ix. unfold merge_value.
+  destruct v; try (destruct (index_pv _ ix) as [v' ix'] eqn:E; reflexivity); try reflexivity.
+  - (* PLitOther *) cbn [index_pv lit_ty_of]. destruct iv as [t0 |]; [destruct (lit_ty_eqb t t0) |]; reflexivity.
+  - (* PLit *) cbn [index_pv lit_ty_of]. destruct (push_str ix s) as [i ix'].
+    destruct iv as [t0 |]; [destruct (lit_ty_eqb TString t0) |]; reflexivity.
+Qed.
+
+Lemma builder_value_index : forall v ix,
+  (fst (fst (builder_value v ix)), snd (builder_value v ix)) = index_pv v ix.
+Proof. intros v ix. unfold builder_value. destruct (index_pv v ix) as [v' ix']. reflexivity. Qed.
+
+Lemma merge_group_index :
+  (forall e ie ix e' ie' ix', merge_entry e ie ix = Some (e', ie', ix') -> index_entry e ix = (e', ix'))
+  /\ (forall g ik ix g' ik' ix', merge_group g ik ix = Some (g', ik', ix') -> index_group g ix = (g', ix')).
+Proof.
+  apply entry_group_ind.
+  - intros v ie ix e' ie' ix' H. destruct ie as [iv | ik]; cbn [merge_entry] in H; [| discriminate H].
+    pose proof (merge_value_index v iv ix) as M. destruct (merge_value v iv ix) as [[v1 iv1] ix1].
+    inversion H; subst. cbn [fst snd] in M. cbn [index_entry]. rewrite <- M. reflexivity.
+  - intros c n g IH ie ix e' ie' ix' H. destruct ie as [iv | ik]; cbn [merge_entry] in H; [discriminate H |].
+    destruct (merge_group g ik ix) as [[[g1 ik1] ix1] |] eqn:E; [| discriminate H]. inversion H; subst.
+    cbn [index_entry]. rewrite (IH _ _ _ _ _ E). reflexivity.
+  - intros ik ix g' ik' ix' H. destruct ik; cbn [merge_group] in H; [| discriminate H]. inversion H; subst. reflexivity.
+  - intros k e IHe r IHr ik ix g' ik' ix' H. destruct ik as [| k0 ie ir]; cbn [merge_group] in H; [discriminate H |].
+    destruct (merge_entry e ie ix) as [[[e1 ie1] ix1] |] eqn:E1; [| discriminate H].
+    destruct (merge_group r ir ix1) as [[[r1 ir1] ix2] |] eqn:E2; [| discriminate H]. inversion H; subst.
+    cbn [index_group]. rewrite (IHe _ _ _ _ _ E1), (IHr _ _ _ _ _ E2). reflexivity.
+Qed.
+
+Lemma builder_group_index :
+  (forall e ix e' ie' ix', builder_entry e ix = Some (e', ie', ix') -> index_entry e ix = (e', ix'))
+  /\ (forall g ix g' ik' ix', builder_group g ix = Some (g', ik', ix') -> index_group g ix = (g', ix')).
+Proof.
+  apply entry_group_ind.
+  - intros v ix e' ie' ix' H.
+    destruct v; cbn [builder_entry] in H; try discriminate H;
+      match type of H with context [builder_value ?w ix] =>
+        pose proof (builder_value_index w ix) as M; destruct (builder_value w ix) as [[v1 iv1] ix1];
+        inversion H; subst; cbn [fst snd] in M; cbn [index_entry]; rewrite <- M; reflexivity
+      end.
+  - intros c n g IH ix e' ie' ix' H. cbn [builder_entry] in H.
+    destruct (builder_group g ix) as [[[g1 ik1] ix1] |] eqn:E; [| discriminate H]. inversion H; subst.
+    cbn [index_entry]. rewrite (IH _ _ _ _ E). reflexivity.
+  - intros ix g' ik' ix' H. cbn [builder_group] in H. inversion H; subst. reflexivity.
+  - intros k e IHe r IHr ix g' ik' ix' H. cbn [builder_group] in H.
+    destruct (builder_entry e ix) as [[[e1 ie1] ix1] |] eqn:E1; [| discriminate H].
+    destruct (builder_group r ix1) as [[[r1 ir1] ix2] |] eqn:E2; [| discriminate H]. inversion H; subst.
+    cbn [index_group]. rewrite (IHe _ _ _ _ E1), (IHr _ _ _ _ E2). reflexivity.
+Qed.
+
+(** every string literal of a locale's final values selects its own text in that locale's table, whatever state
+    (literal types of the locales merged before) the keys are in; and the result does not depend on that state *)
+Theorem literal_kinds_indexed : forall g ik ix g' ik' ix',
+  ix_wf ix -> merge_group g ik ix = Some (g', ik', ix') ->
+  ix_wf ix' /\ ext ix ix' /\ LIg (ix_acc ix') g' /\ index_group g ix = (g', ix').
+Proof.
+  intros g ik ix g' ik' ix' Hwf H. pose proof (proj2 merge_group_index _ _ _ _ _ _ H) as E.
+  destruct (proj2 index_group_inv g ix g' ix' Hwf E) as (W & X & L). repeat split; try assumption; apply W.
+Qed.
+
+Theorem literal_kinds_indexed_default : forall g ix g' ik' ix',
+  ix_wf ix -> builder_group g ix = Some (g', ik', ix') ->
+  ix_wf ix' /\ ext ix ix' /\ LIg (ix_acc ix') g' /\ index_group g ix = (g', ix').
+Proof.
+  intros g ix g' ik' ix' Hwf H. pose proof (proj2 builder_group_index _ _ _ _ _ H) as E.
+  destruct (proj2 index_group_inv g ix g' ix' Hwf E) as (W & X & L). repeat split; try assumption; apply W.
+Qed.
+
+(** all locales of a namespace, in any configuration order: each locale's values and table are those of
+    [index_group] on that locale alone *)
+Definition unit_of (g : group) : group * list str :=
+  (fst (index_group g ix_empty), ix_acc (snd (index_group g ix_empty))).
+
+Lemma merge_locales_independent : forall gs ik outs ikf,
+  merge_locales gs ik = Some (outs, ikf) -> outs = map unit_of gs.
+Proof.
+  induction gs as [| g gs IH]; intros ik outs ikf H; cbn [merge_locales] in H.
+  - inversion H. reflexivity.
+  - destruct (merge_group g ik ix_empty) as [[[g1 ik1] ix1] |] eqn:E; [| discriminate H].
+    destruct (merge_locales gs ik1) as [[o2 ik2] |] eqn:E2; [| discriminate H]. inversion H; subst.
+    cbn [map]. rewrite (IH _ _ _ E2). unfold unit_of. rewrite (proj2 merge_group_index _ _ _ _ _ _ E). reflexivity.
+Qed.
+
+Theorem locales_independent : forall gs outs ikf,
+  check_locales gs = Some (outs, ikf) -> outs = map unit_of gs.
+Proof.
+  intros gs outs ikf H. unfold check_locales in H. destruct gs as [| d rest]; [discriminate H |].
+  destruct (builder_group d ix_empty) as [[[d1 ik1] ix1] |] eqn:E; [| discriminate H].
+  destruct (merge_locales rest ik1) as [[o2 ik2] |] eqn:E2; [| discriminate H]. inversion H; subst.
+  cbn [map]. rewrite (merge_locales_independent _ _ _ _ E2). unfold unit_of.
+  rewrite (proj2 builder_group_index _ _ _ _ _ E). reflexivity.
+Qed.
+
+(** non-vacuity, and the variant that skips indexing when the literal type differs from the state of the key
+    (a string where the default locale has a boolean) leaves a literal that selects nothing *)
+Definition merge_value_skip (v : pv) (iv : ivalue) (ix : indexer) : pv * ivalue * indexer :=
+  match v, iv with
+  | (PLit _ _ | PLitOther _), ILit t =>
+      match lit_ty_of v with
+      | Some t' => if lit_ty_eqb t' t then let (v', ix') := index_pv v ix in (v', ILit t, ix') else (v, IInterpol, ix)
+      | None => (v, IInterpol, ix)
+      end
+  | _, _ => merge_value v iv ix
+  end.
+Example literal_kinds_example :
+  let g := GCons [97] (EVal (PLit [111; 110] 18446744073709551615)) (GCons [98] (EVal (PLitOther TSigned)) GNil) in
+  let ik := IKCons [97] (IEVal (ILit TBool)) (IKCons [98] (IEVal (ILit TSigned)) IKNil) in
+  merge_group g ik ix_empty =
+    Some (GCons [97] (EVal (PLit [111; 110] 0)) (GCons [98] (EVal (PLitOther TSigned)) GNil),
+          IKCons [97] (IEVal IInterpol) (IKCons [98] (IEVal (ILit TSigned)) IKNil),
+          mk_ix [([111; 110], 0)] [[111; 110]])
+  /\ fst (fst (merge_value_skip (PLit [111; 110] 18446744073709551615) (ILit TBool) ix_empty))
+     = PLit [111; 110] 18446744073709551615
+  /\ lits_ok_pv [] 0 (PLit [111; 110] 18446744073709551615) = false.
 Proof. vm_compute. repeat split. Qed.
